@@ -306,6 +306,9 @@ type simCodec struct {
 	name   string
 	inner  connect.Codec
 	strict bool // marshals the service's own message type only
+	// ownTypeEOF: decodes the service's own message type only and reports
+	// anything else with an error that wraps io.EOF
+	ownTypeEOF bool
 }
 
 // marshalFailMarker: a message whose value starts with this cannot be
@@ -337,6 +340,9 @@ func (c *simCodec) Marshal(m any) ([]byte, error) {
 var unmarshalEOFMarker = []byte("\xfeEOF-FROM-CODEC")
 
 func (c *simCodec) Unmarshal(b []byte, m any) error {
+	if _, ok := m.(*Msg); !ok && c.ownTypeEOF {
+		return fmt.Errorf("sim codec: cannot decode into %T: input ended before a value did: %w", m, io.EOF)
+	}
 	if bytes.HasPrefix(b, unmarshalEOFMarker) {
 		return fmt.Errorf("sim codec: input ended before a value did: %w", io.EOF)
 	}
